@@ -114,8 +114,8 @@ pub fn c01() -> PropDef {
         rule: "cases: proptest over (source kind, input, chain of 0..3 stages, params at any position, collect terminal, mode) + all 85 chain shapes x {Vec, unknown-length iterator} x collect terminals; non-trivial: parallel parameters and >=2 worker threads executed closures or pulled elements (measured from the event log), or a map-only pipeline over an unknown-length source with non-empty output; distinct by case hash",
         free: mk_free(|c| c.terms = vec![TermClass::Collect]),
         sched: mk_sched(|c| c.terms = vec![TermClass::Collect]),
-        quick: (4000, 1000),
-        thorough: (40000, 8000),
+        quick: (12000, 3000),
+        thorough: (60000, 12000),
         dense: dense_c01,
         check: check_c01,
         adjust: no_adjust,
@@ -127,7 +127,7 @@ pub fn c01() -> PropDef {
                 &[&[1, 0, 2, 1], &[0, 2, 3]],
             )
         },
-        long: Some(({ let mut c = GenCfg::long_sched(); c.terms = vec![TermClass::Collect]; c }, 150, 1500)),
+        long: Some(({ let mut c = GenCfg::long_sched(); c.terms = vec![TermClass::Collect]; c }, 400, 2500)),
     }
 }
 
@@ -269,8 +269,8 @@ pub fn c03() -> PropDef {
         rule: "cases: proptest over (source, input with duplicates, chain, params, reduce-family terminal with operator in {wrapping add+uid fingerprint, xor, min, max}, mode) + 21 chain shapes x 2 sources x 10 terminals; oracle: sequential fold of the std model (by-key: extremal key and membership); non-trivial: parallel, >=2 worker threads executed closures and >=2 elements survive; distinct by case hash",
         free: mk_free(|c| c.terms = vec![TermClass::ReduceFamily]),
         sched: mk_sched(|c| c.terms = vec![TermClass::ReduceFamily]),
-        quick: (3000, 1000),
-        thorough: (40000, 8000),
+        quick: (9000, 3000),
+        thorough: (60000, 12000),
         dense: dense_c03,
         check: check_c03,
         adjust: no_adjust,
@@ -282,7 +282,7 @@ pub fn c03() -> PropDef {
                 &[&[1, 0, 2, 1], &[0, 0, 3]],
             )
         },
-        long: Some(({ let mut c = GenCfg::long_sched(); c.terms = vec![TermClass::ReduceFamily]; c }, 150, 1500)),
+        long: Some(({ let mut c = GenCfg::long_sched(); c.terms = vec![TermClass::ReduceFamily]; c }, 400, 2500)),
     }
 }
 
@@ -365,14 +365,14 @@ pub fn c04() -> PropDef {
             // chunk size 1 selects the hand-rolled nested loop of the filter_map counter
             c.chunk = ChunkCfg::Small(3);
         }),
-        quick: (2500, 1000),
-        thorough: (40000, 8000),
+        quick: (7500, 3000),
+        thorough: (60000, 12000),
         dense: dense_c04,
         check: check_c04,
         adjust: no_adjust,
         assumptions: COMMON_ASSUMPTIONS,
         tiny: || tiny_cases(&[Term::Count], &[&[StageKind::FilterMap], &[StageKind::Filter]], &[&[1, 0, 2, 1], &[0, 0, 3]]),
-        long: Some(({ let mut c = GenCfg::long_sched(); c.terms = vec![TermClass::Count, TermClass::ForEach]; c }, 100, 1000)),
+        long: Some(({ let mut c = GenCfg::long_sched(); c.terms = vec![TermClass::Count, TermClass::ForEach]; c }, 300, 2000)),
     }
 }
 
@@ -476,8 +476,8 @@ pub fn c06() -> PropDef {
             c.max_len = 600;
         }),
         sched: mk_sched(|c| c.terms = vec![TermClass::CollectIntoPrefixed]),
-        quick: (3000, 300),
-        thorough: (40000, 4000),
+        quick: (9000, 1500),
+        thorough: (60000, 8000),
         dense: dense_c06,
         check: check_c06,
         adjust: no_adjust,
@@ -523,13 +523,13 @@ pub fn c07() -> PropDef {
         rule: "cases: proptest over (source, input with duplicates, chain, params, collect_x, mode) + all 85 chain shapes x 2 sources; oracle: sorted (uid, value) sequence == sorted std chain output (both directions: nothing lost, duplicated or invented); non-trivial: parallel, >=2 worker threads executed closures, non-empty output; distinct by case hash",
         free: mk_free(|c| c.terms = vec![TermClass::CollectX]),
         sched: mk_sched(|c| c.terms = vec![TermClass::CollectX]),
-        quick: (2500, 800),
-        thorough: (40000, 8000),
+        quick: (7500, 2400),
+        thorough: (60000, 12000),
         dense: dense_c07,
         check: check_c07,
         adjust: no_adjust,
         assumptions: COMMON_ASSUMPTIONS,
         tiny: no_tiny,
-        long: Some(({ let mut c = GenCfg::long_sched(); c.terms = vec![TermClass::CollectX]; c }, 100, 1000)),
+        long: Some(({ let mut c = GenCfg::long_sched(); c.terms = vec![TermClass::CollectX]; c }, 300, 2000)),
     }
 }
